@@ -1464,6 +1464,9 @@ package serf
 
 //@ func (s *Snapshotter) compact() (err error)
 //@   requires wf: wfSnap(s)
+//@   # the snapshot may be rewritten from memory in here: what a leave made the recorder forget must be forgotten by now
+//@   requires left_means_forgotten [C13]: leaveRemembered(s)
+//@   ensures leave_state_untouched [C13]: s.leaving == old(s.leaving) && s.rejoinAfterLeave == old(s.rejoinAfterLeave) && leaveRemembered(s)
 //@   ensures handles_never_nil [C12]: wfSnap(s)
 //@   # recording resumes once the fault has cleared: a compaction during which no file operation fails for reasons of its
 //@   # own succeeds and leaves an open file behind, whatever state an earlier failure left the handles in (closing the
@@ -1475,6 +1478,9 @@ package serf
 //@ end
 //@ func (s *Snapshotter) appendLine(l string) (err error)
 //@   requires wf: wfSnap(s)
+//@   # the snapshot may be rewritten from memory in here: what a leave made the recorder forget must be forgotten by now
+//@   requires left_means_forgotten [C13]: leaveRemembered(s)
+//@   ensures leave_state_untouched [C13]: s.leaving == old(s.leaving) && s.rejoinAfterLeave == old(s.rejoinAfterLeave) && leaveRemembered(s)
 //@   ensures handles_never_nil [C12]: wfSnap(s)
 //@   ensures memory_untouched [C12]: s.lastClock == old(s.lastClock) && s.lastEventClock == old(s.lastEventClock) && s.lastQueryClock == old(s.lastQueryClock) &&
 //@       same(s.aliveNodes, old(s.aliveNodes)) && forall(func(k string) bool { return snapMemory(s, k) == old(snapMemory(s, k)) && mapAt(s.aliveNodes, k) == old(mapAt(s.aliveNodes, k)) })
@@ -1482,6 +1488,9 @@ package serf
 //@ func (s *Snapshotter) tryAppend(l string)
 //@   logcalls snapappend
 //@   requires wf: wfSnap(s)
+//@   # the snapshot may be rewritten from memory in here: what a leave made the recorder forget must be forgotten by now
+//@   requires left_means_forgotten [C13]: leaveRemembered(s)
+//@   ensures leave_state_untouched [C13]: s.leaving == old(s.leaving) && s.rejoinAfterLeave == old(s.rejoinAfterLeave) && leaveRemembered(s)
 //@   ensures handles_never_nil [C12]: wfSnap(s)
 //@   ensures memory_untouched [C12]: s.lastClock == old(s.lastClock) && s.lastEventClock == old(s.lastEventClock) && s.lastQueryClock == old(s.lastQueryClock) &&
 //@       same(s.aliveNodes, old(s.aliveNodes)) && forall(func(k string) bool { return snapMemory(s, k) == old(snapMemory(s, k)) && mapAt(s.aliveNodes, k) == old(mapAt(s.aliveNodes, k)) })
@@ -1490,31 +1499,45 @@ package serf
 //@ func (s *Snapshotter) processUserEvent(e UserEvent)
 //@   logcalls snapuser
 //@   requires wf: wfSnap(s)
+//@   # events are recorded only while no leave has been issued
+//@   requires not_after_leave [C13]: !s.leaving
+//@   ensures still_not_leaving [C13]: !s.leaving
 //@   ensures handles_never_nil [C12]: wfSnap(s)
 //@   ensures recorded_in_memory [C12,C14]: s.lastEventClock == ite(e.LTime > old(s.lastEventClock), e.LTime, old(s.lastEventClock))
 //@ end
 //@ func (s *Snapshotter) processQuery(q *Query)
 //@   logcalls snapquery
 //@   requires wf: wfSnap(s)
+//@   # events are recorded only while no leave has been issued
+//@   requires not_after_leave [C13]: !s.leaving
+//@   ensures still_not_leaving [C13]: !s.leaving
 //@   requires query: q != nil
 //@   ensures handles_never_nil [C12]: wfSnap(s)
 //@   ensures recorded_in_memory [C12,C14]: s.lastQueryClock == ite(q.LTime > old(s.lastQueryClock), q.LTime, old(s.lastQueryClock))
 //@ end
 //@ func (s *Snapshotter) updateClock()
 //@   requires wf: wfSnap(s)
+//@   # the snapshot may be rewritten from memory in here: what a leave made the recorder forget must be forgotten by now
+//@   requires left_means_forgotten [C13]: leaveRemembered(s)
+//@   ensures leave_state_untouched [C13]: s.leaving == old(s.leaving) && s.rejoinAfterLeave == old(s.rejoinAfterLeave) && leaveRemembered(s)
 //@   ensures handles_never_nil [C12]: wfSnap(s)
 //@   ensures clock_only_grows [C12]: s.lastClock >= old(s.lastClock)
 //@ end
 //@ func (s *Snapshotter) processMemberEvent(e MemberEvent)
 //@   logcalls snapmember
 //@   requires wf: wfSnap(s)
+//@   # events are recorded only while no leave has been issued
+//@   requires not_after_leave [C13]: !s.leaving
+//@   ensures still_not_leaving [C13]: !s.leaving
 //@   ensures handles_never_nil [C12]: wfSnap(s)
 //@   ensures joined_in_memory [C12]: e.Type == EventMemberJoin ==> forall(func(i int) bool { return 0 <= i && i < len(e.Members) ==> snapMemory(s, e.Members[i].Name) })
 //@   ensures departed_in_memory [C12]: e.Type == EventMemberLeave || e.Type == EventMemberFailed ==>
 //@       forall(func(i int) bool { return 0 <= i && i < len(e.Members) ==> !snapMemory(s, e.Members[i].Name) })
 //@   loop 1 vars ri=rangeindex int
+//@   loop 1 invariant not_leaving [C13]: !s.leaving
 //@   loop 1 invariant joined [C12]: -1 <= ri && wfSnap(s) && same(s.aliveNodes, old(s.aliveNodes)) && forall(func(i int) bool { return 0 <= i && i <= ri ==> snapMemory(s, e.Members[i].Name) })
 //@   loop 2 vars ri=rangeindex int
+//@   loop 2 invariant not_leaving [C13]: !s.leaving
 //@   loop 2 invariant departed [C12]: -1 <= ri && wfSnap(s) && same(s.aliveNodes, old(s.aliveNodes)) && forall(func(i int) bool { return 0 <= i && i <= ri ==> !snapMemory(s, e.Members[i].Name) }) &&
 //@       forall(func(k string) bool { return !old(snapMemory(s, k)) ==> !snapMemory(s, k) })
 //@ end
